@@ -88,7 +88,7 @@ func Groups() map[string]*Group {
 	}
 	add("proto", protos...)
 	var times []func(*Rec)
-	ts := []time.Time{T0.Add(-time.Hour), T0, T0.Add(time.Second), T0.Add(2 * time.Hour)}
+	ts := []time.Time{T0.Add(-time.Hour), T0, T0.Add(time.Second), T0.Add(2 * time.Hour), T0.Add(3 * time.Hour)}
 	for _, f := range ts {
 		for _, l := range ts {
 			if l.Before(f) {
@@ -250,6 +250,10 @@ func Alphabet() []AtomDef {
 	add(false, `ltime:"@ftime@+5m:"`, G("time"), func(r *Rec) bool { return !r.LTime.Before(r.FTime.Add(5 * time.Minute)) })
 	add(false, `ftime:"2020-01-01 1200"`, G("time"), func(r *Rec) bool { return r.FTime.Equal(t1200) })
 	add(false, `ftime:"2020-01-01 120000:2020-01-01 120001"`, G("time"), func(r *Rec) bool { x := t1200.Add(time.Second); return between(r.FTime, &t1200, &x) })
+	t1430 := T0.Add(150 * time.Minute)
+	add(false, `ltime:"2020-01-01 1430:"`, G("time"), func(r *Rec) bool { return between(r.LTime, &t1430, nil) })
+	add(false, `ltime:":2020-01-01 1430"`, G("time"), func(r *Rec) bool { return between(r.LTime, nil, &t1430) })
+	add(false, `ftime:":2020-01-01 1130"`, G("time"), func(r *Rec) bool { x := T0.Add(-30 * time.Minute); return between(r.FTime, nil, &x) })
 	// tags
 	add(true, "tag:a", G("tag/a"), tagIs("tag/a"))
 	add(false, "tag:b", G("tag/b"), tagIs("tag/b"))
